@@ -386,3 +386,18 @@ func init() {
 		return acc
 	}
 }
+
+func init() {
+	intrinsics["syscall.runtime_envs"] = func(e *Exec, th *Thread, caller *Frame, site ssa.Instruction, args []Value) Value {
+		return SliceV{}
+	}
+	intrinsics["os.Getenv"] = func(e *Exec, th *Thread, caller *Frame, site ssa.Instruction, args []Value) Value { return "" }
+	intrinsics["os.LookupEnv"] = func(e *Exec, th *Thread, caller *Frame, site ssa.Instruction, args []Value) Value {
+		return TupleV{"", e.ctx.BoolC(false)}
+	}
+}
+
+func init() {
+	// the local zone is UTC unless a harness installs one (time.Local = time.FixedZone(...))
+	intrinsics["time.initLocal"] = func(e *Exec, th *Thread, caller *Frame, site ssa.Instruction, args []Value) Value { return nil }
+}
